@@ -141,6 +141,8 @@ class RefServer:
     # -- capability block
     def caps(self):
         sasl = self.sasl if not self.tls or self.post_tls_sasl is None else self.post_tls_sasl
+        if sasl is False:
+            sasl = None       # post_tls_sasl=False: no SASL capability line at all after the handshake
         lines = [b'"IMPLEMENTATION" "refserver"']
         if sasl is not None:
             lines.append(b'"SASL" ' + quote(sasl))
